@@ -236,6 +236,18 @@ def _sample_names(ctx):
              "REPLACEMENT CHARACTER", "GRINNING FACE", "TIBETAN MARK BSKA- SHOG GI MGO RGYAN",
              "ARABIC LIGATURE UIGHUR KIRGHIZ YEH WITH HAMZA ABOVE WITH ALEF MAKSURA ISOLATED FORM",
              "BYZANTINE MUSICAL SYMBOL FTHORA SKLIRON CHROMA VASIS", "TANGUT IDEOGRAPH-17000", "NUSHU CHARACTER-1B170"]
+    # boundary names, deterministically: the longest and the shortest names of the Unicode database of this CPython
+    # (string.rs keeps a length limit, MAX_UNICODE_NAME), names with digits / hyphens, and over-long / unknown names
+    allnames = []
+    for cp in range(0x110000):
+        try:
+            allnames.append(unicodedata.name(chr(cp)))
+        except ValueError:
+            pass
+    bylen = sorted(set(allnames), key=lambda x: (len(x), x))
+    names += bylen[:12] + bylen[-40:]
+    names += [x.lower() for x in bylen[-6:]]
+    names += ["X" * 87, "X" * 88, "X" * 89, bylen[-1] + "S", bylen[-1][:-1], "NO SUCH NAME", "", " ", "BULLET ", " BULLET", "BULLET\u0041"]
     got = 0
     while got < n:
         cp = rng.choice([rng.randrange(0x20, 0x3000), rng.randrange(0x3000, 0x10000), rng.randrange(0x10000, 0x30000),
